@@ -33,6 +33,109 @@ def find_materialiser(fb):
     return None
 
 
+def counter_incs(b):
+    """(local, block of `local += 1`) for every local incremented by the constant 1."""
+    out = []
+    for bi, bl in enumerate(b["blocks"]):
+        for st in bl["s"]:
+            if st["k"] == "assign" and st["rv"]["k"] == "bin" and st["rv"]["op"] in ("AddWithOverflow", "Add") and st["rv"]["b"].get("i") == 1 and "p" in st["rv"]["a"] and not st["rv"]["a"]["p"].get("pr"):
+                x = st["rv"]["a"]["p"]["l"]
+                t = bl["t"]
+                nxt = t.get("t") if t["k"] == "assert" else None
+                for bj in [bi] + ([nxt] if nxt is not None else []):
+                    for s2 in b["blocks"][bj]["s"]:
+                        if s2["k"] == "assign" and s2["lhs"]["l"] == x and not s2["lhs"].get("pr"):
+                            out.append((x, bj))
+    return out
+
+
+def rule_positions(chk, fb):
+    """Sheet parts are numbered by position in the sheet list, in every pass over it (raw and loaded sheets alike)."""
+    rp = chk.rule(
+        "C11.b.pos",
+        "sheet numbers are positions: in every loop of the package writer over the sheet list, the sheet counter advances on every path through the loop body (a skipped raw sheet still counts) and every use sees 1 + the number of sheets before it",
+        floor=5,
+    )
+    d = "writer::xlsx::make_buffer"
+    b = fb.mir.get(d)
+    if not b:
+        chk.ob(rp, "anchor", False, detail="package writer make_buffer not found")
+        return
+    chk.touch(d)
+    fl = Flow(fb, b)
+    cfg = CFG(b)
+    loops = {}
+    for t, h in cfg.back_edges():
+        loops.setdefault(h, [set(), []])
+        loops[h][0] |= cfg.natural_loop(t, h)
+        loops[h][1].append(t)
+    n = 0
+    for x, ib in counter_incs(b):
+        # innermost loop containing the increment
+        cands = [(len(body), h) for h, (body, tails) in loops.items() if ib in body]
+        if not cands:
+            continue
+        h = min(cands)[1]
+        body, tails = loops[h]
+        # is this a loop over the sheet list?
+        over_sheets = any(("call", ) and a[0] == "call" and a[1].endswith("get_sheet_collection_no_check") for bi, t in fl.calls() if bi in body and t.get("fn", "").endswith("Iterator>::next") for a in fl.atoms(t["args"][0]))
+        if not over_sheets:
+            continue
+        seen = set()
+        work = [h]
+        while work:
+            y = work.pop()
+            if y in seen or y == ib or y not in body:
+                continue
+            seen.add(y)
+            work.extend(z for z in cfg.succ[y] if z != h)
+        bypass = any(t in seen for t in tails)
+        name = b["locals"][x].get("n") or "counter"
+        chk.ob(rp, "loop#%d:%s advances every iteration" % (n, name), not bypass, where="%s:%s" % (b["file"], b["blocks"][ib]["t"].get("ln")),
+               detail="some path through the loop body skips the increment of `%s` (sheets after a skipped one get the wrong number)" % name if bypass else "`%s` is incremented on every path through the loop body" % name)
+        # initial value and order of increment vs uses
+        init = None
+        for bi2, bl in enumerate(b["blocks"]):
+            if bi2 in body:
+                continue
+            for st in bl["s"]:
+                if st["k"] == "assign" and st["lhs"]["l"] == x and not st["lhs"].get("pr") and st["rv"]["k"] == "use" and "i" in st["rv"]["op"] and cfg.dominates(bi2, h):
+                    init = st["rv"]["op"]["i"]
+        uses = []
+        for bi2, t in fl.calls():
+            if bi2 in body and t.get("fn", "") in fb.mir and not t.get("fn", "").startswith(("std::", "core::")):
+                for a in t["args"]:
+                    if "p" in a and _derives_from_local(b, a["p"]["l"], x):
+                        uses.append((bi2, t))
+        for bi2, t in uses:
+            before = cfg.dominates(ib, bi2) and bi2 in cfg.reachable(ib, avoid=[h])
+            after = bi2 not in cfg.reachable(ib, avoid=[h])
+            val = None if init is None or not (before or after) else init + (1 if before else 0)
+            chk.ob(rp, "loop#%d:%s at %s" % (n, name, t["fn"].split("::")[-2] + "::" + t["fn"].split("::")[-1]), val == 1, where="%s:%s" % (b["file"], t["ln"]),
+                   detail="initial value %s, increment %s the use: the first sheet is numbered %s" % (init, "before" if before else ("after" if after else "neither always before nor always after"), val))
+        n += 1
+
+
+def _derives_from_local(b, l, x, depth=0):
+    """l is x, &x, &*(&x) or a plain copy of those."""
+    if l == x:
+        return True
+    if depth > 10:
+        return False
+    for bl in b["blocks"]:
+        for st in bl["s"]:
+            if st["k"] == "assign" and st["lhs"]["l"] == l and not st["lhs"].get("pr"):
+                rv = st["rv"]
+                if rv["k"] == "ref":
+                    return _derives_from_local(b, rv["place"]["l"], x, depth + 1)
+                if rv["k"] == "use" and "p" in rv["op"]:
+                    return _derives_from_local(b, rv["op"]["p"]["l"], x, depth + 1)
+        t = bl["t"]
+        if t["k"] == "call" and t.get("dest", {}).get("l") == l and t.get("fn", "").split("::")[-1] in ("to_string", "deref") and t["args"] and "p" in t["args"][0]:
+            return _derives_from_local(b, t["args"][0]["p"]["l"], x, depth + 1)
+    return False
+
+
 def run(chk, fb, tier):
     mat = find_materialiser(fb)
     chk.rule("C11.anchor", "the materialiser located by role (raw -> deserialized, &mut Worksheet)", floor=1)
@@ -132,9 +235,12 @@ def run(chk, fb, tier):
                 at = fl.atoms(b["blocks"][x]["t"]["op"])
                 if any(y[0] == "call" and y[1].endswith("is_deserialized") for y in at):
                     guarded = True
+            # skipping a raw sheet is only equivalent to loading it when the use is a read (the writer copies raw sheets
+            # verbatim); an update that skips raw sheets leaves them stale
+            mutating = any("p" in a and fb.ty(b["locals"][a["p"]["l"]]["t"]) == "&mut " + WS for a in t["args"])
             chk.touch(d)
-            chk.ob(ra, "%s->%s#%d" % (d, f.split("::")[-1], n), dominated or guarded, where="%s:%s" % (b["file"], t["ln"]),
-                   detail="a possibly raw sheet is passed to %s (touches deserialised fields); dominated by a materialisation: %s; guarded by is_deserialized(): %s" % (f.split("::")[-1], dominated, guarded))
+            chk.ob(ra, "%s->%s#%d" % (d, f.split("::")[-1], n), dominated or (guarded and not mutating), where="%s:%s" % (b["file"], t["ln"]),
+                   detail="a possibly raw sheet is passed to %s (touches deserialised fields%s); dominated by a materialisation: %s; guarded by is_deserialized(): %s%s" % (f.split("::")[-1], ", by &mut" if mutating else "", dominated, guarded, " (a guard does not do for an update: skipped sheets stay stale)" if mutating and guarded and not dominated else ""))
             n += 1
     # C11.b
     rb = chk.rule(
@@ -153,6 +259,37 @@ def run(chk, fb, tier):
                     rels_ok = True
             chk.touch(d)
             chk.ob(rb, "%s:same-number" % d, sheet_ok and rels_ok, where=fb.loc(d), detail="sheet part named from the sheet number: %s; its relationships part named from the same number: %s" % (sheet_ok, rels_ok))
+    # C11.b.once the sheet's own relationships part must not also be written under its old name
+    ro = chk.rule(
+        "C11.b.once",
+        "a raw sheet's own relationships part is written once: in the raw-sheet writer a relationships part is written under its original name only on the `false` side of the test `its name == the sheet's own .rels name`",
+        floor=1,
+    )
+    from props.C02 import _neg_guarded
+
+    for d, b in sorted(fb.mir.items()):
+        if b.get("self_ty", "").endswith("RawWorksheet") and b["kind"] == "AssocFn" and any(t.get("fn", "").endswith("WriterManager::<'a, W>::add_bin") for _, t in fb.calls_in(b)):
+            fl = Flow(fb, b)
+            cfg = CFG(b)
+            n = 0
+            for bi, t in fl.calls(lambda t: t.get("fn", "").endswith("RawRelationships::write_to")):
+                if len(t["args"]) < 3 or "p" not in t["args"][2]:
+                    continue
+                l = t["args"][2]["p"]["l"]
+                is_none = any(st["k"] == "assign" and st["lhs"]["l"] == l and st["rv"]["k"] == "agg" and st["rv"].get("variant") == "None" for bl in b["blocks"] for st in bl["s"])
+                if not is_none:
+                    continue
+                cbs = _neg_guarded(cfg, fl, b, bi, lambda a: a[1].endswith("::eq"))
+                ok = False
+                for cb in cbs:
+                    at = set()
+                    for a in b["blocks"][cb]["t"]["args"]:
+                        at |= fl.atoms(a)
+                    if any(a[0] == "call" and a[1].endswith("get_file_target") for a in at) and any(a[0] == "call" and a[1].endswith("make_rel_name") for a in at):
+                        ok = True
+                chk.ob(ro, "%s:as-is#%d" % (d, n), ok, where="%s:%s" % (b["file"], t["ln"]),
+                       detail="relationships written under their original name %s" % ("only when they are not the sheet's own" if ok else "without excluding the sheet's own .rels: after renumbering it exists under the old AND the new name, and the old one shadows the next sheet's"))
+                n += 1
     # C11.c tables only grow
     rc = chk.rule(
         "C11.c",
@@ -187,6 +324,10 @@ def run(chk, fb, tier):
     from props import C12
 
     C12.rule_table_choice(chk, fb, "C11.c")
+    rule_positions(chk, fb)
+    from props import C02
+
+    C02.rule_fresh_names(chk, fb, "C11.d")
     chk.assume("Vec/ThinVec push appends at the end and never moves existing elements")
     chk.note("not decided: equivalence of lazily and eagerly loaded content (value-level)")
 
